@@ -247,8 +247,8 @@ theorem runGen_parseV2 {ε : Type} (dec : Bytes → Except PyErr ε) (plist : By
     rw [hx, hy]
     simp only [runGen, runFrom, hexec, KdVerif.parseV2, hh, Run3.events]
     cases hq : (recordLoop dec (r1.rest.length / 64 + 2) r1).2.1 with
-    | none => simp only [sigOf, errOf]; simp [h1, h2, h3, h5, st1, hq, filterMap_ev_comp]
-    | some e => simp only [sigOf, errOf]; simp [h1, h2, h3, h5, st1, hq, filterMap_ev_comp]
+    | none => simp only [sigOf, errOf]; simp [h1, h2, h3, h5, st1, filterMap_ev_comp]
+    | some e => simp only [sigOf, errOf]; simp [h1, h2, h3, h5, st1, filterMap_ev_comp]
 
 /-! ### parse_v3: the chunk loop -/
 
@@ -540,7 +540,7 @@ theorem branch_dyld :
         cases h2 : v.binaries with
         | none => exact ⟨_, rfl, by simp [hm], rfl, rfl, rfl, rfl⟩
         | some l2 =>
-          exact ⟨_, rfl, by simp [metaStep, hd], by simp [metaStep, Env.set, h5], by simp [metaStep, Env.set, h6], rfl, rfl, rfl, rfl⟩
+          exact ⟨_, rfl, by simp [hd], by simp [Env.set, h5], by simp [Env.set, h6], rfl, rfl, rfl, rfl⟩
 
 theorem branch_codes :
     BlockStep st (exec P (.strAppendDecoded .traceCodes (.blockData 7)) st)
@@ -599,6 +599,7 @@ theorem branch_events :
     | none => exact ⟨_, rfl, rfl, rfl, rfl, rfl, rfl⟩
     | some l2 => exact ⟨_, rfl, hm, by simp [Env.set], by simp [Env.set, h6], rfl, rfl, rfl, rfl⟩
 
+omit h6 in
 theorem branch_strings :
     BlockStep st (exec P (.assignInvIndex 6 (.loads (.blockData 7))) st)
       (match P.plist b.2 with
@@ -643,7 +644,7 @@ theorem block_body : BlockStep st (exec P blockBody st) (dispatchBlock P.plist s
   rw [exec_tag_ite P _ _ _ st b h7]
   refine blockStep_ite st (fun _ => branch_events P s b st h7 hm h5 h6) (fun _ => ?_)
   rw [exec_tag_ite P _ _ _ st b h7]
-  refine blockStep_ite st (fun _ => branch_strings P s b st h7 hm h5 h6) (fun _ => ?_)
+  refine blockStep_ite st (fun _ => branch_strings P s b st h7 hm h5) (fun _ => ?_)
   exact ⟨st, rfl, hm, h5, h6, rfl, rfl, rfl, rfl⟩
 
 end branches
